@@ -33,6 +33,9 @@ type Case struct {
 	Tail     Tail   `json:"tail"`
 	Cuts     []int  `json:"cuts"`     // fragment sizes; the remainder forms the last fragment
 	Consumer string `json:"consumer"` // direct | conn
+	// EOFWithData: the read that delivers the last fragment also reports io.EOF (as io.Reader
+	// allows; iotest.DataErrReader, TLS with a pending close_notify and in-memory transports do it).
+	EOFWithData bool `json:"eof_with_data,omitempty"`
 }
 
 // message i: a CER-shaped request whose Origin-State-Id carries i and whose
@@ -99,8 +102,9 @@ func (c Case) fragments(all []byte) [][]byte {
 
 // fragReader hands out the scripted fragments, never more than asked.
 type fragReader struct {
-	frags    [][]byte
-	consumed int
+	frags       [][]byte
+	consumed    int
+	eofWithData bool
 }
 
 func (r *fragReader) Read(p []byte) (int, error) {
@@ -116,12 +120,15 @@ func (r *fragReader) Read(p []byte) (int, error) {
 	n := copy(p, r.frags[0])
 	r.frags[0] = r.frags[0][n:]
 	r.consumed += n
+	if r.eofWithData && len(r.frags) == 1 && len(r.frags[0]) == 0 {
+		return n, io.EOF
+	}
 	return n, nil
 }
 
 func runDirect(c Case) *ev.Failure {
 	msgs, all, _ := c.stream()
-	r := &fragReader{frags: c.fragments(all)}
+	r := &fragReader{frags: c.fragments(all), eofWithData: c.EOFWithData}
 	want := 0
 	for i, orig := range msgs {
 		m, err := diam.ReadMessage(r, dict.Default)
@@ -184,8 +191,8 @@ func runConn(c Case) *ev.Failure {
 	if _, err := diam.NewConn(mc, "", mux, dict.Default); err != nil {
 		return ev.Failf("harness-conn", "%v", err)
 	}
-	mc.Feed(c.fragments(all)...)
-	mc.FeedEOF()
+	mc.ErrWithData = c.EOFWithData
+	mc.FeedWithErr(io.EOF, c.fragments(all)...)
 	if !mc.WaitClosed(10 * time.Second) {
 		mc.Close()
 		return ev.Failf("not-closed", "the connection loop did not close the transport within 10 s of the end of the stream")
@@ -224,6 +231,9 @@ func runCase(c Case) *ev.Failure {
 func classify(c Case) (bool, []string) {
 	msgs, all, _ := c.stream()
 	cl := []string{"consumer:" + c.Consumer, "tail:" + c.Tail.Kind}
+	if c.EOFWithData {
+		cl = append(cl, "eof-with-last-fragment")
+	}
 	// is there a read boundary strictly inside a message?
 	bounds := map[int]bool{}
 	off := 0
@@ -297,6 +307,7 @@ func genCase(t *rapid.T) Case {
 		c.Tail = Tail{Kind: "short-length", Declared: rapid.IntRange(0, 19).Draw(t, "declared"), Trailing: rapid.IntRange(0, 120).Draw(t, "trailing")}
 	}
 	c.Consumer = rapid.SampledFrom([]string{"direct", "direct", "conn"}).Draw(t, "consumer")
+	c.EOFWithData = rapid.IntRange(0, 2).Draw(t, "eof-with-data") == 0
 	_, all, _ := c.stream()
 	switch rapid.IntRange(0, 3).Draw(t, "fragmentation") {
 	case 0: // everything in one segment
@@ -339,11 +350,14 @@ func TestC05ExhaustiveSplits(t *testing.T) {
 			for _, b := range bases {
 				_, all, _ := b.stream()
 				for i := 1; i < len(all); i++ {
-					c := b
-					c.Consumer = consumer
-					c.Cuts = []int{i}
-					if !yield(c) {
-						return
+					for _, ewd := range []bool{false, true} {
+						c := b
+						c.Consumer = consumer
+						c.Cuts = []int{i}
+						c.EOFWithData = ewd
+						if !yield(c) {
+							return
+						}
 					}
 				}
 				if consumer == "conn" && !ev.Thorough() {
